@@ -49,7 +49,11 @@ def gen_network(rng, allow_general=True, allow_hill=True, nmax=4):
             rate = rng.choice(["%s*A/(1+B)", "%s*(A+B)", "%s*C^2/(4+C^2)", "%s*Heaviside(A-2)", "%s*abs(A-B)",
                                "%s*max(A,B)", "%s*exp(-B/4)"]) % k
             reac = [] if rng.chance(1, 2) else [rng.choice(["A", "B", "C"])]
-            rx.append({"reactants": reac, "products": [rng.choice(["A", "B", "C"])], "prop": {"type": "general", "rate": rate}})
+            prods = [rng.choice(["A", "B", "C"])]
+            if rng.chance(1, 3):          # a catalyst: on both sides, not necessarily in the rate
+                c = rng.choice(["A", "B", "C"])
+                reac, prods = reac + [c], prods + [c]
+            rx.append({"reactants": reac, "products": prods, "prop": {"type": "general", "rate": rate}})
         else:
             rx.append(rng.choice(templates)(k))
     ic = {"A": rng.randint(0, 12), "B": rng.randint(0, 8), "C": rng.randint(0, 5)}
